@@ -4,6 +4,7 @@ From Coq Require Import ZArith Bool List Lia.
 From MomoCommon Require Import GenPrelude.
 From C13 Require Gen_Open2N2 Gen_Open2N2_ops Gen_OpenN1 Gen_OpenN1_ops Gen_Open8 Open2N2_Proofs OpenN1_Proofs BucketOps.
 From C13 Require Import ProbeSeq OpenTable.
+From C13 Require HSAddRefine Gen_HSAdd Gen_BucketBase.
 Import ListNotations.
 Local Open Scope Z_scope.
 
@@ -158,6 +159,49 @@ Proof.
     Arg (BucketOps.N1.cnt rv mc) (BucketOps.N1.addP rv mc) (BucketOps.N1.remP rv mc) (Gen_OpenN1_ops.IsFull rv mc) (n1_full_spec rv mc Hmc)
     (updN_cnt rv mc n Hmc Hn) (n1_add_spec rv mc n Hmc) (n1_rem_spec rv mc n Hmc));
     apply (BucketOps.N1.empty_good rv mc Hmc).
+Qed.
+
+(* ------------------------------------------------------------------ HashSet::pvAddNogrow regenerated = the model's add *)
+Definition mk_arg : Z -> Z -> Z -> Arg := fun hc l p => (hc, l, p, 0).
+Definition o2_gen_add mc n hash := HSAddRefine.gen_add n Gen_Open2N2.GetNextBucketIndex BucketOps.O2.st BucketOps.O2.updP Arg
+  (BucketOps.O2.addP mc) BucketOps.O2.full mk_arg hash.
+Definition n1_gen_add rv mc n hash := HSAddRefine.gen_add n Gen_Open8.GetNextBucketIndex (Z -> Z) (updN mc) Arg
+  (BucketOps.N1.addP rv mc) (Gen_OpenN1_ops.IsFull rv mc) mk_arg hash.
+
+Theorem open2n2_generated_addnogrow mc n hash s mCount k : 0 <= n <= 63 ->
+  o2_gen_add mc n hash s mCount k =
+  match first_free n Gen_Open2N2.GetNextBucketIndex BucketOps.O2.st BucketOps.O2.full s (HSAddRefine.home n hash k) 0 (Z.to_nat (2 ^ n)) with
+  | None => Exn
+  | Some p => match o2_add mc n (HSAddRefine.home n hash) s k (mk_arg (hash k) n (Z.of_nat p)) with
+              | Some s' => Ok (0, s', mCount) | None => Stuck end
+  end.
+Proof. intros Hn. apply (HSAddRefine.generated_addnogrow_is_table_add n Hn). Qed.
+
+Theorem open8_generated_addnogrow rv mc n hash s mCount k : 0 <= n <= 63 ->
+  n1_gen_add rv mc n hash s mCount k =
+  match first_free n Gen_Open8.GetNextBucketIndex (Z -> Z) (Gen_OpenN1_ops.IsFull rv mc) s (HSAddRefine.home n hash k) 0 (Z.to_nat (2 ^ n)) with
+  | None => Exn
+  | Some p => match n1_add rv mc n (HSAddRefine.home n hash) s k (mk_arg (hash k) n (Z.of_nat p)) with
+              | Some s' => Ok (0, s', mCount) | None => Stuck end
+  end.
+Proof. intros Hn. apply (HSAddRefine.generated_addnogrow_is_table_add n Hn). Qed.
+
+(* and it throws "Hash table is full" (Exn) only when no bucket of a reachable table has room *)
+Theorem open2n2_generated_addnogrow_full_only_if_all_full mc n hash ops mCount k :
+  1 <= mc <= 3 -> 0 <= n <= 63 -> (forall k, 0 <= hash k) ->
+  let h := HSAddRefine.home n hash in
+  let s := fold_left (o2_step mc n h) ops (o2_empty mc) in
+  o2_gen_add mc n hash s mCount k = Exn ->
+  forall b, 0 <= b < 2 ^ n -> (Z.to_nat mc <= length (bk _ s b))%nat.
+Proof.
+  intros Hmc Hn Hh h s Hexn.
+  assert (Hr : forall k, 0 <= h k < 2 ^ n) by (intros k'; apply (HSAddRefine.home_range n Hn); apply Hh).
+  apply (open2n2_full_only_if_all_full mc n h ops k (mk_arg (hash k) n 0) Hmc Hn Hr).
+  rewrite (open2n2_generated_addnogrow mc n hash s mCount k Hn) in Hexn.
+  unfold o2_add, add. fold h. unfold OpenTable.N.
+  fold h in Hexn.
+  destruct (first_free n Gen_Open2N2.GetNextBucketIndex BucketOps.O2.st BucketOps.O2.full s (h k) 0 (Z.to_nat (2 ^ n))) as [p|] eqn:Hf; [|fold s; rewrite Hf; reflexivity].
+  exfalso. unfold o2_add, add, OpenTable.N in Hexn. rewrite Hf in Hexn. discriminate.
 Qed.
 
 (* non-vacuity: a 4-bucket Open2N2<3> table, constant hash: twelve keys fill it, the thirteenth add fails,
